@@ -188,19 +188,21 @@ def specC01 (h : List Op) (o : Obs) : Option String :=
   | some c => some c
   | none => specLatest h o
 
+/-- C04's safety clause, for EVERY history: an emitted event has a session; a LOGIN-type record of that session and a
+login whose PID is that record's PID and whose identity is the event's have both been delivered no later than the
+operation that wrote the event. (Proved of the model for all histories: `C04S.silence_spec_holds`.) -/
+def specSilence (h : List Op) (o : Obs) : Option String :=
+  o.acts.findSome? fun (a : ObsAction) =>
+    if a.aid = [] || a.aid = strOf "unset" then some "event-without-session" else
+    if (loginRecs h).any fun r => r.2.ses = a.aid && r.1 ≤ a.idx &&
+        (loginOps h).any fun l => some l.2.pid = atoi r.2.pidTok && l.1 ≤ a.idx && decide (identOf l.2 = a.identity)
+    then none else some "no-LOGIN-record-and-login-with-its-PID-before-the-event"
+
 /-- C04 makes no assumption on the history beyond PID/session reuse being C09's subject -/
 def specC04 (h : List Op) (o : Obs) : Option String :=
-  if !(wfNoReuse h || wfReuse h) then
-    -- still: nothing without a session, an opening record and a login with its PID
-    o.acts.findSome? fun (a : ObsAction) =>
-      if a.aid = [] || a.aid = strOf "unset" then some "event-without-session" else
-      match opener h a.aid with
-      | none => some "session-never-opened-by-LOGIN-record"
-      | some (i, rec) =>
-        if i > a.idx then some "emitted-before-LOGIN-record" else
-        if (loginOps h).any fun l => some l.2.pid = atoi rec.pidTok && l.1 ≤ a.idx && decide (identOf l.2 = a.identity)
-        then none else some "no-login-with-the-opener's-PID-and-this-identity"
-  else specIdentity h o
+  match specSilence h o with
+  | some c => some c
+  | none => if wfNoReuse h || wfReuse h then specIdentity h o else none
 
 /-! ### C02 / C16: exactly once, in order, within the staleness window -/
 
